@@ -188,6 +188,41 @@ func directorProgram(c *worker.Ctx) string {
 	return b.String()
 }
 
+// sparseProgram: programs that declare only some lifecycle subroutines
+// (possibly none), possibly no backend at all, with one-line bodies; and
+// matches of backtracking-heavy patterns against the request's URL.
+func sparseProgram(c *worker.Ctx) string {
+	var b strings.Builder
+	nb := c.T.Draw(3)
+	for i := 0; i < nb; i++ {
+		fmt.Fprintf(&b, "backend F_b%d { .host = \"origin%d.test\"; .port = \"80\"; .first_byte_timeout = 5s; }\n", i, i)
+	}
+	if nb > 0 && c.T.Bool(1, 3) {
+		// directors, possibly nested and possibly empty
+		b.WriteString("director d_in random { { .backend = F_b0; .weight = 1; } }\n")
+		b.WriteString([]string{"director d_out random { { .backend = d_in; .weight = 1; } }\n", "director d_out fallback { { .backend = d_in; } { .backend = F_b0; } }\n", "director d_out hash { .quorum = 1%; { .backend = d_in; .weight = 1; } }\n", "director d_out random { }\n"}[c.T.Draw(4)])
+	}
+	bodies := map[string][]string{
+		"recv":    {"set req.backend = req.backend;", "set req.backend = d_out;", "set req.http.X-A = req.backend;", "if (req.url ~ \"^/(a+)+$\") { esi; }", "if (req.url ~ \"^(([a-z])+.)+[A-Z]([a-z])+$\") { esi; }", "if (req.http.X-A ~ \"(x+x+)+y\") { esi; }", "set req.http.X-A = regsuball(req.url, \"(a*)*b\", \"\\1\");", "return(lookup);", "return(pass);", "error 700;", "restart;", ""},
+		"hash":    {"set req.hash += req.url;", "return(hash);", ""},
+		"hit":     {"return(deliver);", "return(pass);", "restart;", ""},
+		"miss":    {"return(fetch);", "set req.backend = d_out;", "return(pass);", ""},
+		"pass":    {"return(pass);", ""},
+		"fetch":   {"set beresp.ttl = 10s;", "return(deliver);", "restart;", "set req.backend = req.backend;", ""},
+		"error":   {"set obj.status = 200;", "synthetic \"e\";", "return(deliver);", "restart;", ""},
+		"deliver": {"set resp.http.X = req.backend;", "return(deliver);", "restart;", ""},
+		"log":     {"log req.backend;", ""},
+	}
+	for _, sc := range scopes {
+		if c.T.Bool(1, 2) {
+			continue // this subroutine is not declared at all
+		}
+		opts := bodies[sc]
+		fmt.Fprintf(&b, "sub vcl_%s {\n  %s\n}\n", sc, opts[c.T.Draw(len(opts))])
+	}
+	return b.String()
+}
+
 // recursionProgram: recursive and mutually recursive subroutines and
 // functional subroutines; the call-depth guard must end them.
 func recursionProgram(c *worker.Ctx) string {
@@ -292,7 +327,7 @@ func includeProgram(c *worker.Ctx) (string, map[string]string, string) {
 }
 
 var hostileMethods = []string{"GET", "POST", "HEAD", "PURGE", "FASTLYPURGE", "OPTIONS", "", "get", "G\x00T", "CONNECT"}
-var hostilePaths = []string{"/", "/a", "/a?x=1&y=%zz", "//", "/%", "/a b", "*", "", "/\x00", "/a#frag", "/" + strings.Repeat("x", 9000), "/a?" + strings.Repeat("k=v&", 2000)}
+var hostilePaths = []string{"/" + strings.Repeat("a", 40) + "!", "/" + strings.Repeat("ab", 30) + "A!", "/", "/a", "/a?x=1&y=%zz", "//", "/%", "/a b", "*", "", "/\x00", "/a#frag", "/" + strings.Repeat("x", 9000), "/a?" + strings.Repeat("k=v&", 2000)}
 
 func hostileRequest(c *worker.Ctx, i int) reqSpec {
 	sp := reqSpec{Method: hostileMethods[c.T.Draw(len(hostileMethods))], URL: hostilePaths[c.T.Draw(len(hostilePaths))], Header: http.Header{}}
@@ -326,7 +361,7 @@ func hostileRequest(c *worker.Ctx, i int) reqSpec {
 
 func runC08(c *worker.Ctx) {
 	res := c.Res
-	workload := c.T.Draw(11)
+	workload := c.T.Draw(12)
 	if v := os.Getenv("FALCOSIM_C08_WORKLOAD"); v != "" { // debugging aid: force one workload family
 		fmt.Sscanf(v, "%d", &workload)
 	}
@@ -373,6 +408,9 @@ func runC08(c *worker.Ctx) {
 		}
 	case 7:
 		vcl, wdesc = directorProgram(c), "director"
+		boundary = true
+	case 11:
+		vcl, wdesc = sparseProgram(c), "sparse"
 		boundary = true
 	case 9, 10: // W5: predefined variables × scopes × request paths
 		var names string
